@@ -10,15 +10,14 @@ SPEC = hdr_spec(
     partial_note="proved for every history of submissions (C07_stream_reconstructs: the subscriber's chain is the repository's best chain; C07_reorg_shape: a reorganisation "
                  "announces exactly the new chain above a common header, lowest first, linked) under one explicit history predicate: no automatic clean is triggered. That the branch update cannot fail (IntersectHash always finds a common branch, Find finds the "
                  "intersect, every height above it is readable) is a theorem there (C07_branch_update_never_fails). Histories with Clean/Save/Load/marking in between and the "
-                 "automatic clean are checked by the correspondence + stream-replaying monitor on every generated history, not proved. That the announced fork point is the "
-                 "HIGHEST common header (minimal announcement) is likewise checked, not proved: the theorem shows it is a common header, which is what reconstruction needs.")
+                 "automatic clean are checked by the correspondence + stream-replaying monitor on every generated history, not proved. The announced fork point is the LAST common header (no announced header was on the previous best chain: C07_reorg_shape, last conjunct).")
 
 META = dict(
     technique="Lean 4 proof (inductive invariant StreamWF over submission histories; IntersectHash/chainLinks give a common header; reorganisation stream = new chain above it; induction over histories) + model/implementation correspondence + stream-replaying monitor",
     text="Theorems for every repository state: refused and already-known submissions announce nothing; extending the best branch announces exactly that header and applying it "
          "to a chain ending in its parent appends it; a side-branch extension that stays behind announces nothing and leaves the tip; a branch update lists exactly "
          "tip-height minus fork-height headers. For every state reached by submissions from genesis (invariant StreamWF, preserved by ProcessHeader): a reorganisation announces "
-         "exactly the headers of the new best chain above a header common to both chains, lowest first, as a linked chain, every announced header being on the new best chain "
+         "exactly the headers of the new best chain above the last header common to both chains (the true fork point; no announced header was on the old chain), lowest first, as a linked chain, every announced header being on the new best chain "
          "(C07_reorg_shape, C07_reorg_announced_in_chain); applying any submission's announcement to the best chain before it gives the best chain after it (C07_stream_step); the branch update never fails (C07_branch_update_never_fails); "
          "over any finite history the subscriber's chain equals the repository's best chain (C07_stream_reconstructs). Every subscriber's stream is compared between the real code and the model after every op.",
     note=COMMON_NOTE + "Partial for histories with maintenance operations (see evidence). Subscriber channels hold 10000 headers (extracted); longer single updates would block and are out of scope.",
